@@ -21,6 +21,7 @@ var validTemplates = []string{
 	"send [USD *] (\n source = { @a @b allowing overdraft up to [USD 5] max [USD 3] from @c allowing unbounded overdraft }\n destination = { 1/3 to @d 2/3 to @e }\n)",
 	"send [USD 9] (\n source = { 1/2 from @a 1/4 from @b remaining from @c }\n destination = { 50% to @d 25% to { max [USD 1] to @e remaining kept } remaining kept }\n)",
 	"send [USD 10] (\n source = { 9223372036854775808/18446744073709551616 from @a 9223372036854775808/18446744073709551616 from @b }\n destination = { 1/18446744073709551616 to @d 18446744073709551615/18446744073709551616 to @e }\n)",
+	"send [USD 10] (\n source = { 1/2 from @a 4611686018427387904/9223372036854775808 from @b }\n destination = { 9223372036854775807/18446744073709551615 to @d 9223372036854775808/18446744073709551615 to @e }\n)",
 	"send [USD 10] (\n source = @world\n destination = { 50.00000000000000000000000000000000000000000000000000000000000000% to @d remaining to @e }\n)",
 	// valid by the static rules, but with warnings: none of them may be of error severity
 	"vars {\n number $num1\n}\nsend [USD 1] (\n source = @a\n destination = @d\n)",
@@ -37,6 +38,7 @@ var nameTemplates = [][2]string{
 	{"vars {\n account $x\n asset $y\n monetary $z = balance($x, $y)\n}\nsend $z (\n source = @world\n destination = $x\n)", "x,y,z"},
 	{"vars {\n monetary $x\n monetary $y\n}\nsend [USD 1] (\n source = { max $x from @a @b allowing overdraft up to $y }\n destination = { max $x to @d remaining kept }\n)", "x,y"},
 	{"vars {\n portion $x\n string $y\n}\nsend [USD 1] (\n source = { $x from @a remaining from @b }\n destination = @d\n)\nset_tx_meta($y, $x)", "x,y,q"},
+	{"vars {\n asset $x\n number $y\n}\nset_tx_meta(\"fee\", [$x $y])\nset_account_meta(@a, \"k\", [USD $y])", "x,y,q"},
 	{"vars {\n number $x\n asset $y\n account $z\n}\nsave [$y $x] from $z\nset_account_meta($z, \"k\", $x + $x)", "x,y,z"},
 }
 
@@ -51,7 +53,7 @@ func init() {
 			}
 			nt := nameTemplates
 			if tier != "thorough" {
-				nt = nt[:5]
+				nt = nt[:6]
 			}
 			for _, t := range nt {
 				cases = append(cases, Case{ID: "names " + strings.ReplaceAll(t[0], "\n", " "), Pkg: "internal/analysis", Fn: "ZZC16Names", Args: []string{t[0], t[1]}, Tag: "names"})
@@ -59,11 +61,11 @@ func init() {
 			return cases
 		},
 		Bounds: stdBounds(
-			map[string]interface{}{"valid_templates": len(validTemplates), "literal_portions": "every non-negative numerator over the written denominators (symbolic)", "names": "4 templates; every declaration and use takes every name of a pool of 2-3 (all deletions / duplications / renamings), <= 3^8 assignments each"},
-			map[string]interface{}{"valid_templates": len(validTemplates), "names": "5 templates"}),
+			map[string]interface{}{"valid_templates": len(validTemplates), "literal_portions": "every non-negative numerator over the written denominators (symbolic)", "names": "6 templates; every declaration and use takes every name of a pool of 2-3 (all deletions / duplications / renamings), <= 3^8 assignments each"},
+			map[string]interface{}{"valid_templates": len(validTemplates), "names": "7 templates"}),
 		Assumptions: []string{"trees come from the real parser (native) on concrete template text; names are substituted in the imported tree", "big.Rat modelled exactly (numerator/denominator terms)",
 			"a variable referenced only before its declaration: whether it is also 'unused' is left open (two-sided)"},
 		Stubs:   []string{"parser.Parse (native)", "math/big.Rat {NewRat SetFrac Add Sub Cmp}"},
-		Outside: []string{"scripts outside the template list", "a variable referenced inside its own origin"},
+		Outside: []string{"scripts outside the template list"},
 	})
 }
